@@ -25,7 +25,7 @@ META = {
                "thorough": {"members": "same + nested component", "pause step": "0..8"}},
     "outside": profiles.OUTSIDE + ["non-finite numbers", "file-system failures"],
 }
-REQUIRED_COVERS = {"any": ["stage:never", "stage:paused", "stage:forward", "stage:backward", "subproject-task", "refs-checked", "resimulated", "inject:saved", "empty-lists", "resumed-after-restore", "stage:edited", "stage:backward-due"]}
+REQUIRED_COVERS = {"any": ["stage:never", "stage:paused", "stage:forward", "stage:backward", "subproject-task", "refs-checked", "resimulated", "inject:saved", "empty-lists", "resumed-after-restore", "stage:edited", "stage:backward-due", "values-checked"]}
 
 EXCLUDED = {
     "BaseTask": ["parent_workflow", "additional_work_amount", "additional_task_flag", "actual_work_amount"],
@@ -100,6 +100,36 @@ def check_refs(C, ctx):
     ctx.cover("refs-checked")
 
 
+VALUE_PARAMS = ("name", "default_work_amount", "work_amount_progress_of_unit_step_time", "default_progress", "due_time", "auto_task", "need_facility",
+                "fixing_allocating_worker_id_list", "fixing_allocating_facility_id_list", "unit_timedelta", "space_size", "max_space_size", "cost_per_time",
+                "solo_working", "team_id", "workplace_id", "main_workplace_id", "absence_time_list", "workamount_skill_mean_map", "facility_skill_map")
+
+
+def _plain_equal(a, b):
+    if isinstance(a, dict) and isinstance(b, dict):
+        return sorted(a) == sorted(b) and all(_plain_equal(a[k], b[k]) for k in a)
+    if isinstance(a, (list, tuple)) and isinstance(b, (list, tuple)):
+        return len(a) == len(b) and all(_plain_equal(x, y) for x, y in zip(a, b))
+    if (a is None) != (b is None):
+        return False
+    if a == b:
+        return True
+    return False
+
+
+def check_values(M, MC, ctx):
+    """Value-typed constructor parameters of every restored object equal those of the object that was saved."""
+    for kind in ("tasks", "comps", "workers", "facs", "teams", "wps"):
+        for o, r in zip(getattr(M, kind), getattr(MC, kind)):
+            if type(o) is not type(r):
+                ctx.fail("C16:restored-as-other-class:%s" % type(o).__name__)
+                continue
+            for name in VALUE_PARAMS:
+                if hasattr(o, name) and not _plain_equal(getattr(o, name), getattr(r, name, None)):
+                    ctx.fail("C16:value-not-restored:%s.%s" % (type(o).__name__, name))
+    ctx.cover("values-checked")
+
+
 def _path_key(path):
     """'.pDESy[2].task_list[1].lst' -> 'task_list.lst' (clause-level, no indices)."""
     import re
@@ -130,6 +160,11 @@ def roundtrip(p, ctx):
                         ctx.fail("C16:configure-raised:%s" % exc_tag(r))
                         return
                     t.set_work_amount_progress_of_unit_step_time(M.project.unit_timedelta)
+        if p.get("sub_unit_ms"):
+            # a sub-project task whose own unit time has a day part and a sub-second part
+            for t in M.tasks:
+                if type(t).__name__ == "BaseSubProjectTask":
+                    t.unit_timedelta = datetime.timedelta(milliseconds=p["sub_unit_ms"])
         kw = sim_kwargs(M)
         ok = True
         if stage == "paused":
@@ -172,6 +207,11 @@ def roundtrip(p, ctx):
             ctx.fail("C16:reexport-differs:%s" % _path_key(d))
             ctx.notes["differs_at"] = d
         check_refs(C, ctx)
+        okv, MCv = ctx.call(restore_family_view, C, M)
+        if not okv:
+            ctx.fail("C16:restored-objects-not-found-by-id")
+        else:
+            check_values(M, MCv, ctx)
         # a paused project that was restored continues like the original (FIFO reads the restored state logs)
         if stage == "paused" and not ctx.fails:
             from pDESy.model.base_priority_rule import TaskPriorityRuleMode
@@ -211,6 +251,10 @@ def roundtrip(p, ctx):
 
 
 # ---------------------------------------------------------------------------------------------- injectivity
+UNITS = [datetime.timedelta(minutes=1), datetime.timedelta(minutes=2), datetime.timedelta(days=1), datetime.timedelta(hours=36), datetime.timedelta(days=2),
+         datetime.timedelta(milliseconds=1500), datetime.timedelta(seconds=1)]
+
+
 def _two_values(cls, name, p):
     """Two different values for constructor parameter `name` (numbers come from solver variables a != b)."""
     from pDESy.model.base_priority_rule import ResourcePriorityRuleMode as R, WorkplacePriorityRuleMode as W
@@ -260,7 +304,8 @@ def _two_values(cls, name, p):
     if name in ("facility_list",):
         return [], [BaseFacility("o", ID="o")]
     if name == "unit_timedelta":
-        return datetime.timedelta(minutes=1), datetime.timedelta(minutes=2)
+        # unit lengths with a day part, a sub-second part, and plain minutes (the pair is a cube constant)
+        return UNITS[p.get("ui", 0)], UNITS[p.get("uj", 1)]
     return None
 
 
@@ -347,6 +392,8 @@ def obligations(tier, seed):
                     [["w0", 0, 2]], {"resim": False}))
     members.append(("sub-configured", {"tasks": [{"w": "$w0"}, {"w": 1, "subproject": True}], "edges": [[0, 1, 0]], "teams": profiles.layout_workers("shared1", 2), "run": {"max_time": 8}},
                     [["w0", 0, 2]], {"configure_sub": True}))
+    members.append(("sub-unit-36h-and-a-half-second", {"tasks": [{"w": "$w0"}, {"w": 1, "subproject": True}], "edges": [[0, 1, 0]], "teams": profiles.layout_workers("shared1", 2), "run": {"max_time": 8}},
+                    [["w0", 0, 2]], {"resim": False, "sub_unit_ms": 36 * 3600 * 1000 + 500}))
     for mname, spec, params, consts in members:
         for stage in ("never", "paused", "forward", "backward", "edited", "backward-due"):
             if stage == "edited" and mname not in ("wf-FS", "prod"):
@@ -362,6 +409,12 @@ def obligations(tier, seed):
     for cname, cls in _classes().items():
         for name in basic_parameters(cls):
             if name in EXCLUDED.get(cname, []):
+                continue
+            if name == "unit_timedelta":
+                for ui in range(len(UNITS)):
+                    for uj in range(ui + 1, len(UNITS)):
+                        obs.append({"name": "inject/%s.%s/%d-%d" % (cname, name, ui, uj), "harness": "inject", "cube": {"cls": cname, "param": name, "ui": ui, "uj": uj},
+                                    "params": [["a", 0, 1], ["b", 0, 1]], "pre": "a != b", "timeout": 60, "engine": "zsym"})
                 continue
             obs.append({"name": "inject/%s.%s" % (cname, name), "harness": "inject", "cube": {"cls": cname, "param": name},
                         "params": [["a", -1, 3], ["b", -1, 3]], "pre": "a != b", "timeout": 60, "engine": "zsym"})
